@@ -145,8 +145,16 @@ class FPCoreContext:
         if not isinstance(ctx, Context):
             raise TypeError(f'Expected \'Context\' for ctx={ctx}, got {type(ctx)}')
 
+        if ctx.is_stochastic():
+            # FPCore has no property for random bits; dropped, the core
+            # would round to nearest (or in the base direction) every time
+            raise RuntimeError(f'Cannot convert a stochastic context to an FPCore context {ctx}')
+
         match ctx:
             case IEEEContext():
+                if ctx.overflow is not OV.OVERFLOW:
+                    # a floating-point `:precision` always overflows to infinity
+                    raise RuntimeError(f'Cannot convert to an FPCore context {ctx}: its overflow mode is {ctx.overflow}')
                 rm = _round_mode_from_fpc(ctx.rm)
                 match (ctx.es, ctx.nbits):
                     case (15, 128):
